@@ -437,7 +437,8 @@ impl Scenario for C15 {
                 out.push(C15 { caller: l, ..self.clone() });
             }
         }
-        for (i, v) in self.values.iter().enumerate() {
+        // per-item shrinking clones the whole scenario per candidate: only once the list is short
+        for (i, v) in self.values.iter().enumerate().take(if self.values.len() <= 64 { usize::MAX } else { 0 }) {
             for sv in v.shrink() {
                 let mut vs = self.values.clone();
                 vs[i] = sv;
@@ -752,6 +753,14 @@ impl Property for P15 {
             let vals = vec![ValSpec { ty: Ty::Bytes, size: 3, seed: 7 }, bytes_spec_with_encoding_len(DEFAULT_MAX_LEN), ValSpec { ty: Ty::Bytes, size: 3, seed: 8 }];
             out.push(C15 { src, ..base(Ty::Bytes, vals) });
         }
+        // a frame of more than 16 MiB (most significant prefix byte non-zero), whole and in 5 MiB pieces with a cancellation
+        for g in [u32::MAX, 5 << 20] {
+            let src = if g == u32::MAX { vec![] } else { vec![Step::Xfer(g), Step::Pending, Step::Xfer(g), Step::Xfer(g)] };
+            let vals = vec![ValSpec { ty: Ty::Bytes, size: 3, seed: 7 }, bytes_spec_with_encoding_len((16 << 20) + 11), ValSpec { ty: Ty::Bytes, size: 3, seed: 8 }];
+            out.push(C15 { src, caller: vec![Decide::Cancel], max_len_mode: 1, ..base(Ty::Bytes, vals) });
+        }
+        // more than 65536 frames through one reader (16-bit counters)
+        out.push(base(Ty::U64, (0..65_700u64).map(|i| ValSpec { ty: Ty::U64, size: 0, seed: i }).collect()));
         let mut all: Vec<S15> = out.into_iter().map(S15::Single).collect();
         all.extend(crate::pipe::PipeSc::sweeps().into_iter().map(S15::Pipe));
         all
